@@ -1330,7 +1330,7 @@ def model_stats(model, dist):
 def correspondence(ctx) -> CorrResult:
     import random
     rng = ctx.rng
-    n_models = ctx.scale(150, 6000)
+    n_models = ctx.scale(120, 5000)
     n_render = 3
     per = 40
     feats = excluded_features()
@@ -1392,3 +1392,345 @@ def correspondence(ctx) -> CorrResult:
                 {"source": s, "context": m["context"]}, "Coq model result differs",
                 o.get("err") or {"xtrings": o["xtrings"], "quantities": o["quantities"]}))
     return res
+
+
+# =====================================================================================
+# 6. Falsifier: the property stated on the public API, against an independent reading of the source tree
+# =====================================================================================
+
+NPF = {"log": np.log, "exp": np.exp, "sqrt": np.sqrt, "abs": np.abs, "logistic": lambda x: 1 / (1 + np.exp(-x)),
+       "maximum": np.maximum, "minimum": np.minimum, "cf1": _cf1, "cf2": _cf2}
+PSEUDO_DEFAULT = {"shift": -1, "diff": -1, "diff_log": -1, "difflog": -1, "pct": -1, "roc": -1,
+                  "mov_sum": -4, "movsum": -4, "mov_avg": -4, "movavg": -4, "mov_prod": -4, "movprod": -4}
+
+
+def ref_eval(e, env, ctx, subs, shift=0):
+    """value of the expression as written (documented meaning), env(name, k) -> array"""
+    k = e[0]
+    with np.errstate(all="ignore"):
+        if k == "name":
+            sh = e[2]
+            kk = sh[1] if sh[0] == "z" else ieval(sh[1], ctx)
+            return env(close(e[1]), kk + shift)
+        if k == "num":
+            return np.float64(e[1]) / np.float64(10 ** e[2])
+        if k == "ctx":
+            return np.float64(ieval(e[1], ctx))
+        if k == "neg":
+            return -ref_eval(e[1], env, ctx, subs, shift)
+        if k == "paren":
+            return ref_eval(e[1], env, ctx, subs, shift)
+        if k == "bin":
+            a, b = ref_eval(e[3], env, ctx, subs, shift), ref_eval(e[4], env, ctx, subs, shift)
+            return {"Add": lambda: a + b, "Sub": lambda: a - b, "Mul": lambda: a * b, "Div": lambda: a / b,
+                    "Pow": lambda: np.float64(a) ** b}[e[1]]()
+        if k == "call":
+            return NPF[e[1]](*[ref_eval(a, env, ctx, subs, shift) for a in e[2]])
+        if k == "subs":
+            return ref_eval(subs[e[1]], env, ctx, subs, shift)
+        if k == "pseudo":
+            f = e[1]
+            s = PSEUDO_DEFAULT[f] if e[3] is None else e[3]
+            at = lambda j: ref_eval(e[2], env, ctx, subs, shift + j)   # noqa
+            if f == "shift":
+                return at(s)
+            if f == "diff":
+                return at(0) - at(s)
+            if f in ("diff_log", "difflog"):
+                return np.log(at(0)) - np.log(at(s))
+            if f == "pct":
+                return 100 * (at(0) / at(s) - 1)
+            if f == "roc":
+                return at(0) / at(s)
+            n, st = abs(s), (1 if s > 0 else -1)
+            terms = [at(i * st) for i in range(n)]
+            if f in ("mov_sum", "movsum"):
+                return sum(terms[1:], terms[0]) if terms else np.float64(0)
+            if f in ("mov_avg", "movavg"):
+                return (sum(terms[1:], terms[0]) if terms else np.float64(0)) / n
+            out = terms[0]
+            for x in terms[1:]:
+                out = out * x
+            return out
+    raise AssertionError(e)
+
+
+def expr_shifts(e, ctx, subs, acc, base=0):
+    k = e[0]
+    if k == "name":
+        sh = e[2]
+        acc.append(base + (sh[1] if sh[0] == "z" else ieval(sh[1], ctx)))
+    elif k == "bin":
+        expr_shifts(e[3], ctx, subs, acc, base); expr_shifts(e[4], ctx, subs, acc, base)
+    elif k in ("neg", "paren"):
+        expr_shifts(e[1], ctx, subs, acc, base)
+    elif k == "call":
+        for a in e[2]:
+            expr_shifts(a, ctx, subs, acc, base)
+    elif k == "subs":
+        expr_shifts(subs[e[1]], ctx, subs, acc, base)
+    elif k == "pseudo":
+        s = PSEUDO_DEFAULT[e[1]] if e[3] is None else e[3]
+        expr_shifts(e[2], ctx, subs, acc, base)
+        expr_shifts(e[2], ctx, subs, acc, base + s)
+
+
+def reference_model(model):
+    """Independent reading of the structured source: declared quantities, log status, equations as written."""
+    ctx = model["context"]
+    items = py_resolve(model["nodes"], ctx)
+    block = None
+    decl, logs, allbut, eqs, subs = [], [], [], [], {}
+    for it in items:
+        if it[0] == "kw":
+            block = (it[1], it[2])
+            if it[1] == "log":
+                allbut.append(bool(it[2]))
+        elif it[0] == "qty":
+            decl.append((close(it[2]), block[1], close(it[1]).strip()))
+        elif it[0] == "log":
+            logs.append(close(it[1]))
+        elif it[0] == "subs":
+            subs[it[1]] = it[3]
+        elif it[0] == "eqn":
+            def flat(s):
+                if s is None:
+                    return None
+                return {"lhs": s["lhs"], "rhs": s["rhs"], "tails": [(t[1], t[2]) for t in py_resolve(s["tails"], ctx)]}
+            eqs.append((block[1], close(it[1]).strip(), flat(it[2]), flat(it[3])))
+    ab = allbut[0] if allbut else False
+    quantities = {}
+    for name, kind, descr in decl:
+        logly = None
+        if kind in ("TV", "MV", "EX"):
+            logly = (not ab) if name in logs else ab
+        quantities[name] = (KINDS[kind], descr, logly)
+    eqs = [e for e in eqs if e[0] == "T"] + [e for e in eqs if e[0] == "M"]
+    tshocks = [n for n, k, d in decl if k == "TS"]
+    return {"quantities": quantities, "equations": eqs, "subs": subs, "tshocks": tshocks, "context": ctx}
+
+
+def ref_residual(side, env, ctx, subs):
+    rhs = ref_eval(side["rhs"], env, ctx, subs)
+    for plus, t in side["tails"]:
+        v = ref_eval(t, env, ctx, subs)
+        rhs = rhs + v if plus else rhs - v
+    return rhs - ref_eval(side["lhs"], env, ctx, subs)
+
+
+def _same(a, b, tol=1e-8):
+    a = np.asarray(a, dtype=float); b = np.asarray(b, dtype=float)
+    if a.shape != b.shape:
+        a, b = np.broadcast_arrays(a, b)
+    with np.errstate(all="ignore"):
+        both_bad = ~np.isfinite(a) & ~np.isfinite(b)
+        ok = np.abs(a - b) <= tol * (1 + np.abs(a) + np.abs(b))
+    return bool(np.all(ok | both_bad))
+
+
+def check_model(model, src, rng_seed, key_prefix="") -> list:
+    """All property checks for one source; returns Failures."""
+    import irispie as ir
+    fails = []
+    ref = reference_model(model)
+    inp = {"source": src, "context": model["context"], "model": model, "data_seed": rng_seed}
+    repro = "irispie.Simultaneous.from_string(source, context=context)"
+    try:
+        m = ir.Simultaneous.from_string(src, context=impl_context(model))
+    except Exception as e:  # noqa
+        return [Failure(key_prefix + "from_string:raises", f"a source of the documented language is rejected: "
+                        f"{type(e).__name__}: {str(e)[:200]}", inp, f"{type(e).__name__}: {e}"[:300], "a model", repro)]
+    # 1. names, kinds, descriptions, log status
+    got = {q.human: (KIND_OF_ENUM[q.kind.name], (q.description or ""), q.logly) for q in m.get_quantities()}
+    for n, want in ref["quantities"].items():
+        if got.get(n) != want:
+            fails.append(Failure(key_prefix + "quantities:declared", f"declared name {n!r} is exposed as {got.get(n)}, declared {want}",
+                                 inp, got.get(n), want, repro + ".get_quantities()"))
+            break
+    extra = [n for n in got if n not in ref["quantities"] and not n.startswith(("ant_", "std_"))]
+    if extra:
+        fails.append(Failure(key_prefix + "quantities:extra", f"names that were not declared are exposed: {extra}", inp, extra, [], repro))
+    names = m.get_names()
+    if sorted(names) != sorted(got) or len(set(names)) != len(names):
+        fails.append(Failure(key_prefix + "quantities:get_names", "get_names() and get_quantities() disagree", inp, list(names), sorted(got)))
+    ls = m.get_log_status()
+    want_ls = {n: v[2] for n, v in ref["quantities"].items() if v[2] is not None}
+    if {k: bool(v) for k, v in ls.items()} != want_ls:
+        fails.append(Failure(key_prefix + "quantities:log-status", "get_log_status() differs from the !log-variables declaration",
+                             inp, {k: bool(v) for k, v in ls.items()}, want_ls, repro + ".get_log_status()"))
+    # 2. equations evaluate to rhs - lhs as written, on arbitrary data
+    name_to_qid = m.create_name_to_qid()
+    nq = len(name_to_qid)
+    ctx, subs = ref["context"], ref["subs"]
+    shifts = [0]
+    for kind, descr, dy, st in ref["equations"]:
+        for s in (dy, st):
+            if s is not None:
+                for e in [s["lhs"], s["rhs"]] + [t for _, t in s["tails"]]:
+                    try:
+                        expr_shifts(e, ctx, subs, shifts)
+                    except KeyError:
+                        pass
+    lo, hi = min(shifts), max(shifts)
+    ncol = (hi - lo) + 4
+    rs = np.random.RandomState(rng_seed % (2 ** 31))
+    data = rs.uniform(0.6, 1.9, size=(nq, ncol))
+    cols = np.arange(-lo, ncol - hi)
+    inv = m._invariant
+    dyn_eqs = m.get_dynamic_equation_objects()
+    if len(dyn_eqs) != len(ref["equations"]):
+        fails.append(Failure(key_prefix + "equations:count", f"{len(dyn_eqs)} equations, the source has {len(ref['equations'])}", inp,
+                             len(dyn_eqs), len(ref["equations"])))
+        return fails
+    for which, equator in (("dynamic", inv._plain_dynamic_equator), ("steady", inv._plain_steady_equator)):
+        try:
+            with np.errstate(all="ignore"):
+                vals = equator.eval(data, cols)
+        except Exception as e:  # noqa
+            fails.append(Failure(key_prefix + f"eval:{which}:raises", f"the {which} equations cannot be evaluated: {type(e).__name__}: {str(e)[:150]}",
+                                 inp, f"{type(e).__name__}: {e}"[:300], "rhs - lhs", repro + f"._invariant._plain_{which}_equator.eval(data, t)"))
+            continue
+        for i, (kind, descr, dy, st) in enumerate(ref["equations"]):
+            side = dy if (which == "dynamic" or st is None) else st
+            ant = ref["tshocks"] if (which == "dynamic" and kind == "T") else []
+
+            def env(name, k, ant=ant):
+                v = data[name_to_qid[name], cols + k]
+                if name in ant:
+                    v = v + data[name_to_qid["ant_" + name], cols + k]
+                return v
+            try:
+                want = ref_residual(side, env, ctx, subs)
+            except KeyError as e:
+                fails.append(Failure(key_prefix + "quantities:missing", f"name {e} of the source is not a quantity of the model", inp))
+                break
+            gotv = np.asarray(vals[i], dtype=float)
+            if not _same(gotv, want):
+                eq = (dyn_eqs if which == "dynamic" else m.get_steady_equation_objects())[i]
+                fails.append(Failure(key_prefix + f"eval:{which}", f"{which} equation {i} ({eq.human}) does not evaluate to rhs - lhs as written",
+                                     dict(inp, equation=i, human=eq.human, xtring=eq.xtring),
+                                     np.broadcast_to(gotv, np.shape(want)).tolist()[:4], np.asarray(want).tolist()[:4],
+                                     repro + f"._invariant._plain_{which}_equator.eval(data, t)[{i}]"))
+                break
+        # descriptions of equations
+    descr_got = [e.description or "" for e in dyn_eqs]
+    descr_want = [e[1] for e in ref["equations"]]
+    if descr_got != descr_want:
+        fails.append(Failure(key_prefix + "equations:descriptions", "equation descriptions differ from the source", inp, descr_got, descr_want))
+    return fails
+
+
+def observed_signature(model, src):
+    _, obs = run_impl(model, src)
+    if "err" in obs:
+        return ("err", obs["err"].split(":")[0])
+    return ("ok", repr(obs["quantities"]), repr(obs["dynamic"]), repr(obs["steady"]), repr(obs["descriptions"]))
+
+
+PROBES = [
+    ("pseudo:shift-not-parenthesised", "shift-bare",
+     "!variables a, b\n!parameters p\n!equations\n a = p*shift(a+b);\n b = 2*shift(b-a, -2)/a;\n"),
+    ("preparser:if-without-else-then-if-else", "if-else",
+     "!variables a, b\n!equations\n!if 1 < 2 !then\n a = 1;\n!end\n!if 1 < 2 !then\n b = 1;\n!else\n b = 2;\n!end\n"),
+    ("anticipated-shock:shifted-shock", "shifted-shock",
+     "!variables a\n!shocks e\n!equations\n a = 0.5*a{-1} + e + 0.3*e{-1};\n"),
+]
+
+
+def probe_models():
+    def nm(n, k=0):
+        return ("name", lit(n), ("z", k, "curly"))
+
+    def eq(lhs, rhs):
+        return ("item", ("eqn", [], {"lhs": lhs, "assign": False, "rhs": rhs, "tails": []}, None))
+    kwv, kwp, kwe, kws = (("item", ("kw", "qty", "TV", 2)), ("item", ("kw", "qty", "P", 0)), ("item", ("kw", "eqn", "T", 2)),
+                          ("item", ("kw", "qty", "TS", 2)))
+    q = lambda n: ("item", ("qty", [], lit(n)))   # noqa
+    one = ("num", 1, 0)
+    m1 = {"context": {}, "nodes": [kwv, q("a"), q("b"), kwp, q("p"), kwe,
+          eq(nm("a"), ("bin", "Mul", "caret", nm("p"), ("pseudo", "shift", ("bin", "Add", "caret", nm("a"), nm("b")), None))),
+          eq(nm("b"), ("bin", "Div", "caret", ("bin", "Mul", "caret", ("num", 2, 0),
+                                               ("pseudo", "shift", ("bin", "Sub", "caret", nm("b"), nm("a")), -2)), nm("a")))]}
+    cd = ("cmp", "<", ("const", 1), ("const", 2))
+    m2 = {"context": {}, "nodes": [kwv, q("a"), q("b"), kwe, ("if", cd, [eq(nm("a"), one)], None),
+                                   ("if", cd, [eq(nm("b"), one)], [eq(nm("b"), ("num", 2, 0))])]}
+    m3 = {"context": {}, "nodes": [kwv, q("a"), kws, q("e"), kwe,
+          eq(nm("a"), ("bin", "Add", "caret", ("bin", "Add", "caret", ("bin", "Mul", "caret", ("num", 5, 1), nm("a", -1)), nm("e")),
+                       ("bin", "Mul", "caret", ("num", 3, 1), nm("e", -1))))]}
+    return [m1, m2, m3]
+
+
+def _falsify_worker(job):
+    import random
+    i, model, seeds = job
+    cnt = {"models": 1, "renderings": 1, "equation_evaluations": 0, "variant_pairs": 0}
+    srcs = [Render(random.Random(s)).source(model) for s in seeds]
+    fs = check_model(model, srcs[0], seeds[0])
+    cnt["equation_evaluations"] = 2 * len(reference_model(model)["equations"])
+    if not fs:
+        sig0 = observed_signature(model, srcs[0])
+        variants = [("rendering", srcs[1])]
+        if i % 2 == 0:
+            variants.append(("unrolled", Render(random.Random(seeds[1])).source(unroll(model))))
+        for what, s2 in variants:
+            cnt["variant_pairs"] += 1
+            if observed_signature(model, s2) != sig0:
+                fs.append(Failure(f"variants:{what}", f"two sources that differ only by meaning-preserving variations ({what}) "
+                                  "give different models", {"source_a": srcs[0], "source_b": s2, "context": model["context"],
+                                                           "model": model}, None, None,
+                                  "compare Simultaneous.from_string(a) and (b): quantities and xtrings"))
+    return fs, cnt
+
+
+def falsify(ctx, hints):
+    import random
+    rng = ctx.rng
+    fails: list[Failure] = []
+    info = {"probes": {}, "models": 0, "renderings": 0, "equation_evaluations": 0, "variant_pairs": 0}
+    # 1. targeted probes (stable keys for the three repaired defects)
+    broken_feats = set()
+    for (key, feat, _txt), model in zip(PROBES, probe_models()):
+        src = Render(random.Random(0), restyle=False, noisy=False).source(model)
+        fs = check_model(model, src, 12345)
+        info["probes"][key] = "ok" if not fs else fs[0].what[:120]
+        if fs:
+            f = fs[0]
+            fails.append(Failure(key, f.what, f.input, f.observed, f.required, f.repro))
+            broken_feats.add(feat)
+    feats = excluded_features() | broken_feats
+    # 2. inputs on which model and implementation disagreed
+    for d in hints.get("disagreements", [])[:10]:
+        inp = d.get("input") or {}
+        if isinstance(inp, dict) and inp.get("model"):
+            fails += check_model(inp["model"], inp["source"], 777)
+    # 3. generated models: evaluation against the independent reading; variants give identical models
+    n = ctx.scale(32, 1500)
+    jobs = []
+    for i in range(n):
+        model = gen_case(rng, feats)
+        jobs.append((i, model, [rng.getrandbits(64) for _ in range(2)]))
+    import multiprocessing as mp
+    import irispie  # noqa: imported before the fork
+    with mp.get_context("fork").Pool(min(core.NCPU, 16)) as pool:
+        results = pool.map(_falsify_worker, jobs, chunksize=1)
+    for fs, cnt in results:
+        fails += fs
+        for k, v in cnt.items():
+            info[k] += v
+    seen, uniq = set(), []
+    for f in fails:
+        if f.key not in seen:
+            seen.add(f.key); uniq.append(f)
+    return uniq, info
+
+
+def replay(ctx, failure: dict):
+    inp = failure.get("input") or {}
+    if "model" in inp and "source" in inp:
+        for f in check_model(inp["model"], inp["source"], inp.get("data_seed", 1)):
+            return Failure(failure["key"], f.what, f.input, f.observed, f.required, f.repro)
+        return None
+    if "source_a" in inp:
+        a, b = observed_signature(inp["model"], inp["source_a"]), observed_signature(inp["model"], inp["source_b"])
+        return None if a == b else Failure(failure["key"], failure["what"], inp)
+    return None
